@@ -187,7 +187,14 @@ func cmdBindings(args []string) int {
 
 // aliases: recorded names of fn that it no longer has -> the current name of the same variable.
 func (e *Engine) aliases(fn *ssa.Function) (locals map[string]string, params map[string]int) {
-	locals, params = map[string]string{}, map[string]int{}
+	locals, params, _ = e.aliasesV(fn)
+	return
+}
+
+// aliasesV: as aliases; vals holds recorded names whose variable was inlined away (`xs := f(); for range xs`
+// became `for range f()`): the value with the recorded descriptor stands for the name.
+func (e *Engine) aliasesV(fn *ssa.Function) (locals map[string]string, params map[string]int, vals map[string]ssa.Value) {
+	locals, params, vals = map[string]string{}, map[string]int{}, map[string]ssa.Value{}
 	if e.bindings == nil {
 		e.bindings = loadBindings()
 	}
@@ -205,6 +212,7 @@ func (e *Engine) aliases(fn *ssa.Function) (locals map[string]string, params map
 		}
 	}
 	now := localDescriptors(fn)
+	var byVal map[string]ssa.Value
 	byDesc := map[string]string{}
 	for n, d := range now {
 		byDesc[d] = n
@@ -216,6 +224,18 @@ func (e *Engine) aliases(fn *ssa.Function) (locals map[string]string, params map
 		if n2, ok := byDesc[d]; ok {
 			if _, taken := b.Locals[n2]; !taken { // the new name must not itself be a recorded (different) variable
 				locals[n] = n2
+			}
+			continue
+		}
+		if !strings.HasPrefix(d, "&") {
+			if byVal == nil {
+				byVal = map[string]ssa.Value{}
+				for v, vd := range valueDescriptors(fn) {
+					byVal[vd] = v
+				}
+			}
+			if v, ok := byVal[d]; ok {
+				vals[n] = v
 			}
 		}
 	}
